@@ -83,7 +83,7 @@ Proof. vm_compute. repeat split; reflexivity. Qed.
    (which all the theorems above and the C07/C08/C11-C14/C17/C18 developments speak about) and
    leaves memory unchanged; in particular no load leaves the string and its terminator, no signed
    operation overflows and neither fuel runs out (those are distinct error results of CLite). *)
-From NV Require Import CLite CLiteProps GenCFuncs CLiteTac TrUcCode TrUc TrUcTab.
+From NV Require Import CLite CLiteProps GenCFuncs CLiteTac TrUcCode TrUc TrUcClass.
 Local Open Scope Z_scope.
 
 Theorem C16_tr_uc_len : forall m b s o d fuel,
